@@ -4,6 +4,9 @@ import json, os, sys
 ROOT = os.path.dirname(os.path.dirname(os.path.abspath(__file__)))
 
 CHECKS = {
+ "C07": ("exploration", "runtime monitoring of replication: store-to-store delivery schedules (out of order, duplicated, retried, restarts, discards, forks) with equality of histories/answers/proofs at quiescence and rejection-without-effect of ~20 k structure-aware altered or non-extending exports; pkg/database sync replication with the harness as the network and online ack-count / replica-not-ahead monitors",
+         "Held on the schedules executed: L1 60 schedules x 80 txs quick (2000 thorough) incl. header v0/v1, tx and KV metadata, empty and truncated values, concurrent ReplicateTx inside the window, replica close/reopen, DiscardPrecommittedTxsSince, forked primaries; L2 40 schedules quick (800 thorough) of one primary with syncAcks=K and M>=K replicas with delayed, duplicated, reordered deliveries and replica restarts.",
+         "The real TxReplicator over loopback (L3) is not driven; an altered export that is accepted but decodes to the primary's own tx is benign.", "DESIGN.md 2/C07"),
  "C01": ("exploration", "runtime oracle on verifier decisions: honest proofs of real store histories must verify (completeness); responses altered by ~190 single and combined mutation operators must not verify unless the claim they make is still true (soundness, judged by the accepted claim against a ledger); the unmodified client code is driven through a tamper layer",
          "Held on the histories and alterations executed: real store histories (1-40 txs quick, up to 300 thorough; header v0/v1, KV and tx metadata, lagging binary linking fed through ReplicateTx), all trusted/proven pairs when n<=40, ~0.8 M (quick) mutated verifications of VerifyDualProof/V2, VerifyLinearProof, VerifyLinearAdvanceProof, VerifyInclusion incl. self-consistent forgeries re-derived from a reference Merkle tree, and the real immuClient VerifiedGet/Set/TxByID/SetReference/ZAdd against an in-process database behind a protoreflect tamper layer.",
          "SHA-256; a false target that is a possible fork after the trusted tx is not held against the verifier; freshness and unauthenticated fields (revision, expired) are outside the statement; VerifiedSQLGet / document proofs are covered by C19 only.", "DESIGN.md 2/C01"),
